@@ -68,6 +68,7 @@ def parseCA (s : String) : Option (List CAReply) :=
     | ["certs", n, m] => do pure (.certs (← n.toNat?) (← m.toNat?))
     | ["foreign"] => some .foreign
     | ["plain"] => some .plainKey
+    | ["mixed", n, m] => do pure (.mixed (← n.toNat?) (← m.toNat?))
     | ["err"] => some .err
     -- the real crypki signer against an unreachable CA / with a finished request context: a failing CA
     | ["realdown"] => some .err
